@@ -110,14 +110,13 @@ Fixpoint lkey_eqb (a b : lkey) : bool :=
   | _, _ => false
   end.
 
-(* a first component ".." = above the root; a first component "/" = a file-system-absolute location *)
-Definition inside (l : lkey) : bool :=
-  match l with c :: _ => negb (String.eqb c "..") && negb (String.eqb c "/") | [] => true end.
+(* a first component ".." = not under the root ([".."; "/"; ...] = a file-system-absolute location) *)
+Definition inside (l : lkey) : bool := negb (String.eqb (hd "" l) "..").
 
 (* where a RELATIVE path lives: root.join(path) decodes and normalises; text that decodes to a leading "/"
    replaces the root altogether *)
 Definition rel_loc (p : string) : lkey :=
-  let u := unq p in if is_abs u then "/" :: norm_comps u else norm_comps u.
+  let u := unq p in if is_abs u then ".." :: "/" :: norm_comps u else norm_comps u.
 
 (* wire convention for absolute record paths: "/x/y" = <parent of the root>/x/y *)
 Definition abs_loc (p : string) : lkey := ".." :: norm_comps p.
@@ -128,6 +127,12 @@ Definition loc (p : string) : lkey :=
 
 (* a template text that decodes (upper-case escape present) to an absolute path is refused by LocationFactory *)
 Definition abs_after_decode (p : string) : bool := has_upper_escape p && is_abs (unq p).
+
+(* df0ecd0: FileDatastore builds the location of a new artifact with trusted_path=False, so Location checks that the
+   RESOLVED (decoded, normalised) location of the template text is under the root before anything is written.
+   `chk` = that check is in force (false = the code before df0ecd0, kept for the _refuted_without_fix witnesses). *)
+Definition checked (chk : bool) (p : string) : bool := negb chk || inside (rel_loc (stage_a p)).
+Definition refuse_location (chk : bool) (p : string) : bool := abs_after_decode p || negb (checked chk p).
 
 (* LocationFactory.fromPath(template output) + updateExtension: text kept as pathInStore, location written *)
 Definition target_text (p ext : string) : string := set_ext (stage_a p) ext.
@@ -239,14 +244,14 @@ Definition do_trash (s : state) (ids : list N) : state :=
   mkState (recs s) (filter (fun id => negb (memN id ids)) (live s)) (known ++ trash s) (fs s).
 
 (* ---- one operation ---------------------------------------------------------------------------------- *)
-Definition step (s : state) (x : op) : state * outcome :=
+Definition step_v (chk : bool) (s : state) (x : op) : state * outcome :=
   match x with
   | Put id fr ext c =>
       match fr with
       | FOutside => (s, Refused ValueErr)
       | FKeyErr => (s, Refused KeyErr)
       | FOk p =>
-          if abs_after_decode p then (s, Refused ValueErr) else
+          if refuse_location chk p then (s, Refused ValueErr) else
           if held_any s [id] then (s, Refused Conflict)
           else
             let l := target_loc p ext in
@@ -259,10 +264,10 @@ Definition step (s : state) (x : op) : state * outcome :=
       | FOutside => (s, Refused ValueErr)
       | FKeyErr => (s, Refused KeyErr)
       | FOk p =>
-          if abs_after_decode p then (s, Refused ValueErr) else
           match fget (fs s) src with
           | None => (s, Refused NotFound)
           | Some c =>
+              if refuse_location chk p then (s, Refused ValueErr) else
               let l := target_loc p ext in
               if held_any s ids
               then (with_fs s (fdel (fs s) l), Refused Conflict)
@@ -295,6 +300,9 @@ Definition step (s : state) (x : op) : state * outcome :=
   | Prune ids | RemoveRun ids => (empty_trash (do_trash s ids), Done)
   | Ext l c => (with_fs s (match c with Some v => fset (fs s) l v | None => fdel (fs s) l end), Done)
   end.
+
+(* the code as it is *)
+Definition step : state -> op -> state * outcome := step_v true.
 
 Definition run (s : state) (h : list op) : state := fold_left (fun st x => fst (step st x)) h s.
 
@@ -343,6 +351,27 @@ Definition moved_source (s : state) (x : op) (l : lkey) : bool :=
   | Ingest Move ids (FOk _) _ src => lkey_eqb src l && negb (held_any s ids)
   | _ => false
   end.
+
+(* The step from the checked text to the written text (updateExtension), on decoded components: attaching the
+   extension keeps every component but the last and makes the last one an ordinary name.  Decidable; evaluated on
+   every correspondence case; premise of writes_inside_root_partial. *)
+Definition plain_comp (c : string) : bool :=
+  negb (String.eqb c "") && negb (String.eqb c ".") && negb (String.eqb c "..").
+
+Fixpoint is_prefix (a b : list string) : bool :=
+  match a, b with
+  | [], _ => true
+  | x :: r, y :: r' => String.eqb x y && is_prefix r r'
+  | _ :: _, [] => false
+  end.
+
+Definition ext_bridge (p ext : string) : bool :=
+  let t := stage_a p in
+  negb (is_abs (unq (set_ext t ext)))
+  && match rev (split_slash (unq (set_ext t ext))) with
+     | lst :: rinit => plain_comp lst && is_prefix (rev rinit) (split_slash (unq t))
+     | [] => false
+     end.
 
 (* file-template containment: FileTemplate.format output WITHOUT its final check, for the refutation *)
 Definition finish_path_unchecked (s : string) : string :=
